@@ -1,7 +1,8 @@
 """Module-level tables of the library are constants: what a module-level dict / list / set / array CONTAINED when the library was
 imported is still there, unchanged, after the whole workload and all replay phases.  (Containers that were empty at import -
 memos, lazily filled tables - are none of this monitor's business, and new keys added to a table are not judged either: only
-entries present at import that have been edited or removed.)  A look-up that hands out its table entry by reference and then
+entries present at import that have been edited or removed; slots that held a placeholder - None, 0, -1, '', NaN - are skipped, a
+table may be pre-allocated and filled on first use.)  A look-up that hands out its table entry by reference and then
 "blanks a field for this caller" edits the entry for every later caller."""
 from __future__ import annotations
 
@@ -38,23 +39,44 @@ def snapshot():
             pass
 
 
+def _placeholder(v):
+    """a slot that was only reserved at import (None, 0, -1, '', NaN): a table may legitimately be pre-allocated and filled on
+    first use - such slots are not judged"""
+    try:
+        if v is None or v == "" or v == 0 or v == -1 or v != v:
+            return True
+    except Exception:
+        pass
+    return False
+
+
 def _diff(now, then):
     try:
         import numpy as np
         if isinstance(then, np.ndarray):
-            return None if (np.shape(now) == np.shape(then) and np.array_equal(now, then, equal_nan=True)) else "array contents changed"
+            if np.shape(now) != np.shape(then):
+                return "array reshaped"
+            if then.dtype.kind in "biufc":
+                keep = ~((then == 0) | (then == -1) | (then != then))
+                return None if np.array_equal(np.asarray(now)[keep], then[keep], equal_nan=True) else "array contents changed"
+            return None if np.array_equal(now, then) else "array contents changed"
     except Exception:
         pass
     if isinstance(then, dict):
         for k, v in then.items():
             if k not in now:
                 return "entry %r removed" % (k,)
+            if _placeholder(v):
+                continue
             if now[k] != v and repr(now[k]) != repr(v):
                 return "entry %r changed from %s to %s" % (k, repr(v)[:80], repr(now[k])[:80])
         return None
     if isinstance(then, list):
-        if len(now) < len(then) or (now[:len(then)] != then and repr(now[:len(then)]) != repr(then)):
-            return "list changed from %s to %s" % (repr(then)[:80], repr(now)[:80])
+        if len(now) < len(then):
+            return "list shortened from %d to %d entries" % (len(then), len(now))
+        for j_, v in enumerate(then):
+            if not _placeholder(v) and now[j_] != v and repr(now[j_]) != repr(v):
+                return "entry %d changed from %s to %s" % (j_, repr(v)[:80], repr(now[j_])[:80])
         return None
     if isinstance(then, set):
         return None if then <= now else "elements removed: %s" % repr(sorted(then - now, key=repr))[:80]
